@@ -58,6 +58,7 @@ type Ctx struct {
 	SecretInts int
 	Public     map[int]bool // Publicity(): leaf values keyed by -id
 	HandleBase int
+	u8         []uint8
 	byID       map[int]*Term
 	vals       map[int]interface{}
 	Calls      []CallRec
@@ -224,6 +225,10 @@ func (c *Ctx) RunScript(ops []SOp, p redact.SafePrinter, st fmt.State, verb rune
 			p.UnsafeByte(byte(op.N))
 		case "SafeInt":
 			p.SafeInt(redact.SafeInt(op.N))
+		case "SafeUint":
+			p.SafeUint(redact.SafeUint(uint64(int64(op.N))))
+		case "SafeFloat":
+			p.SafeFloat(redact.SafeFloat(c.Value(op.Ts[0]).(float64)))
 		case "Write":
 			p.Write(c.Subst(op.B))
 		case "WriteString":
@@ -243,6 +248,47 @@ func (c *Ctx) RunScript(ops []SOp, p redact.SafePrinter, st fmt.State, verb rune
 	}
 }
 
+// ---- uint8-kinded named types (capability U8) ----------------------------------
+// Their value is a slot number; slots are reserved per context so that the methods find their spec.
+
+type U8ER uint8
+type U8ST uint8
+type U8SV uint8
+type U8 uint8
+
+func (u U8ER) Error() string  { return u8Spec(uint8(u)).ret("Error") }
+func (u U8ST) String() string { return u8Spec(uint8(u)).ret("String") }
+func (U8SV) SafeValue()       {}
+
+var (
+	u8mu    sync.Mutex
+	u8cond  = sync.NewCond(&u8mu)
+	u8slots [250]*objSpec
+)
+
+func u8Reserve(sp *objSpec) uint8 {
+	u8mu.Lock()
+	defer u8mu.Unlock()
+	for {
+		for i := 20; i < len(u8slots); i++ {
+			if u8slots[i] == nil {
+				u8slots[i] = sp
+				return uint8(i)
+			}
+		}
+		u8cond.Wait()
+	}
+}
+
+func u8Spec(slot uint8) *objSpec {
+	u8mu.Lock()
+	defer u8mu.Unlock()
+	if sp := u8slots[slot]; sp != nil {
+		return sp
+	}
+	panic(fmt.Sprintf("no spec for uint8 object %d", slot))
+}
+
 // ---- concrete values ---------------------------------------------------------
 
 type St1E struct{ A interface{} }
@@ -257,6 +303,7 @@ type St2uE struct {
 	B interface{}
 }
 type St2uu struct{ a, b interface{} }
+type St3EEE struct{ A, B, C interface{} }
 type St3EuE struct {
 	A interface{}
 	b interface{}
@@ -309,6 +356,9 @@ func (c *Ctx) Plain(t *Term) interface{} {
 		if v.Kind() == reflect.Ptr {
 			return c.Value(t)
 		}
+		if v.Kind() == reflect.Uint8 {
+			return uint8(v.Uint())
+		}
 		return int(v.Int())
 	}
 	return c.Value(t)
@@ -329,7 +379,7 @@ func (c *Ctx) build(t *Term) interface{} {
 		if c.SecretInts != 0 && !c.Public[-t.ID] {
 			return uint(7770 + c.SecretInts)
 		}
-		return uint(t.N)
+		return uint(int64(t.N)) // a negative n stands for 2^64 + n
 	case "float":
 		if c.SecretInts != 0 && !c.Public[-t.ID] {
 			return float64(7770+c.SecretInts) + 0.5
@@ -354,6 +404,20 @@ func (c *Ctx) build(t *Term) interface{} {
 			if cp == "REG" {
 				reg = 1
 			}
+		}
+		if hasCap(t, "U8") {
+			sp := &objSpec{c, t}
+			slot := u8Reserve(sp)
+			c.u8 = append(c.u8, slot)
+			switch {
+			case hasCap(t, "ER"):
+				return U8ER(slot)
+			case hasCap(t, "ST"):
+				return U8ST(slot)
+			case hasCap(t, "SV"):
+				return U8SV(slot)
+			}
+			return U8(slot)
 		}
 		if hasCap(t, "NILP") {
 			return objMakers[reg][mask](0, true)
@@ -394,6 +458,8 @@ func (c *Ctx) build(t *Term) interface{} {
 			return St2uu{v[0], v[1]}
 		case "EuE":
 			return St3EuE{v[0], v[1], v[2]}
+		case "EEE":
+			return St3EEE{v[0], v[1], v[2]}
 		}
 		panic("no struct type for pattern " + pat)
 	case "ptrto":
@@ -403,6 +469,22 @@ func (c *Ctx) build(t *Term) interface{} {
 		return p.Interface()
 	case "nilptr":
 		return (*int)(nil)
+	case "tslice", "tmap":
+		// statically typed: the element type is that of the first child
+		vals := c.Values(t.Xs)
+		et := reflect.TypeOf(vals[0])
+		if t.K == "tslice" {
+			sl := reflect.MakeSlice(reflect.SliceOf(et), 0, len(vals))
+			for _, v := range vals {
+				sl = reflect.Append(sl, reflect.ValueOf(v))
+			}
+			return sl.Interface()
+		}
+		mp := reflect.MakeMap(reflect.MapOf(et, reflect.TypeOf(vals[1])))
+		for i := 0; i+1 < len(vals); i += 2 {
+			mp.SetMapIndex(reflect.ValueOf(vals[i]), reflect.ValueOf(vals[i+1]))
+		}
+		return mp.Interface()
 	case "rvalue":
 		return reflect.ValueOf(c.Value(t.Xs[0]))
 	case "invalidrv":
@@ -413,6 +495,10 @@ func (c *Ctx) build(t *Term) interface{} {
 
 // SpecOfValue returns the term behind an object operand (nil if v is not one).
 func SpecOfValue(v interface{}) (*Ctx, *Term) {
+	if u, ok := v.(U8ER); ok {
+		sp := u8Spec(uint8(u))
+		return sp.c, sp.t
+	}
 	rv := reflect.ValueOf(v)
 	if !rv.IsValid() || rv.Kind() != reflect.Int {
 		return nil, nil
@@ -438,6 +524,15 @@ func HookTerms() []*Term {
 
 // Release drops the object specs of this context.
 func (c *Ctx) Release() {
+	if len(c.u8) > 0 {
+		u8mu.Lock()
+		for _, s := range c.u8 {
+			u8slots[s] = nil
+		}
+		u8mu.Unlock()
+		u8cond.Broadcast()
+		c.u8 = nil
+	}
 	for _, v := range c.vals {
 		rv := reflect.ValueOf(v)
 		if rv.IsValid() && rv.Kind() == reflect.Int {
